@@ -221,7 +221,7 @@ def run(ctx):
     res = rc.run_harness(ex, ctx.seed, 16, int((6000 if ctx.tier == 'quick' else 400000) * ctx.scale), 200, known_tags=rcheck.known_tags(ctx))
     ctx.res.merge(res)
     hyp.run_property(ctx, strategy_b, body_b, envinit, max(2, int((25 if ctx.tier == 'quick' else 800) * ctx.scale)))
-    hyp.run_property(ctx, strategy_c, body_c, envinit, max(2, int((30 if ctx.tier == 'quick' else 1500) * ctx.scale)))
+    hyp.run_property(ctx, strategy_c, body_c, envinit, max(2, int((30 if ctx.tier == 'quick' else 600) * ctx.scale)))
 
 def replay_file(ctx, path):
     j = json.load(open(path))
